@@ -90,14 +90,88 @@ class Ctx:
         return [[self.read(m, i, j) for j in range(n)] for i in range(n)]
 
 
-def r_mat_dense(rep, f, nmax=3):
+def _op_case(f, opname, n):
+    """all storage combinations of one operator at one size -> (cases, entries, bad, unknown, steps)"""
+    d, model, inplace = (OPS2.get(opname) or OPS1.get(opname))
+    binary = opname in OPS2
+    cx = Ctx(f)
+    s = Poly.atom("s")
+    n_cases = n_entries = 0
+    bad = unknown = None
+    ks = kinds(n)
+    for ka in ks:
+        for kb in (ks if binary else [None, "zero"]):
+            try:
+                A = cx.mk(ka, n, "a")
+                A0 = cx.dense(deepv(A), n)
+                if binary:
+                    B = cx.mk(kb, n, "b")
+                    B0 = cx.dense(deepv(B), n)
+                    arg = B
+                else:
+                    arg = Poly() if kb == "zero" else s      # a generic scalar, and the scalar 0 (identity shortcut paths)
+                R = cx.call(d, [A, arg])
+                if inplace:
+                    R = A
+                ri = repinv(R, n)
+                if ri:
+                    bad = (n, ka, kb, None, "the result violates the representation invariant: " + ri)
+                    break
+                got = cx.dense(R, n)
+            except CxPanic as ex:
+                bad = (n, ka, kb, None, "the operator panics (%s)" % ex)
+                break
+            except CxUnknown as ex:
+                unknown = (n, ka, kb, str(ex))
+                break
+            n_cases += 1
+            for i in range(n):
+                for j in range(n):
+                    n_entries += 1
+                    want = model(A0[i][j], B0[i][j]) if binary else model(A0[i][j], arg)
+                    if got[i][j] != want and bad is None:
+                        bad = (n, ka, kb, (i, j), "entry is %r, the dense model gives %r" % (got[i][j], want))
+            if bad:
+                break
+        if bad or unknown:
+            break
+    return n_cases, n_entries, bad, unknown, cx.steps
+
+
+_WF = {}
+
+
+def _worker(task):
+    opname, n = task
+    import facts as _facts
+    if "f" not in _WF:
+        _WF["f"] = _facts.load("default")
+    r = _op_case(_WF["f"], opname, n)
+    # polynomials do not need to cross the process boundary: messages only
+    return (opname, n) + r
+
+
+def r_mat_dense(rep, f, nmax=3, jobs=1):
     need = [IDX, M + "identity", M + "full", M + "banded"]
     if any(d not in f.bodies for d in need):
         rep.inconc("R-MAT-DENSE", "R-MAT-DENSE:anchor", "Matrix constructors / Index impl not found")
         return
-    cx = Ctx(f)
-    s = Poly.atom("s")
-    for opname, (d, model, inplace) in list(OPS2.items()) + list(OPS1.items()):
+    ops = [o for o in list(OPS2) + list(OPS1)]
+    tasks = [(o, n) for o in ops for n in range(1, nmax + 1) if (OPS2.get(o) or OPS1.get(o))[0] in f.bodies]
+    results = {}
+    if jobs > 1 and nmax > 3:
+        import multiprocessing as mp
+        # largest sizes first
+        order = sorted(tasks, key=lambda t: -t[1])
+        with mp.Pool(jobs) as pool:
+            for r_ in pool.imap_unordered(_worker, order):
+                results[(r_[0], r_[1])] = r_[2:]
+    else:
+        for t in tasks:
+            results[t] = _op_case(f, t[0], t[1])
+    total_steps = 0
+    for opname in ops:
+        d = (OPS2.get(opname) or OPS1.get(opname))[0]
         key = "R-MAT-DENSE:%s" % opname
         if d not in f.bodies:
             rep.inconc("R-MAT-DENSE", key, "%s not found" % d)
@@ -105,48 +179,14 @@ def r_mat_dense(rep, f, nmax=3):
         rep.fn(d)
         binary = opname in OPS2
         n_cases = n_entries = 0
-        bad = None
-        unknown = None
+        bad = unknown = None
         for n in range(1, nmax + 1):
-            ks = kinds(n)
-            for ka in ks:
-                for kb in (ks if binary else [None, "zero"]):
-                    try:
-                        A = cx.mk(ka, n, "a")
-                        A0 = cx.dense(deepv(A), n)
-                        if binary:
-                            B = cx.mk(kb, n, "b")
-                            B0 = cx.dense(deepv(B), n)
-                            arg = B
-                        else:
-                            arg = Poly() if kb == "zero" else s      # a generic scalar, and the scalar 0 (identity shortcut paths)
-                        R = cx.call(d, [A, arg])
-                        if inplace:
-                            R = A
-                        ri = repinv(R, n)
-                        if ri:
-                            bad = (n, ka, kb, None, "the result violates the representation invariant: " + ri)
-                            break
-                        got = cx.dense(R, n)
-                    except CxPanic as ex:
-                        bad = (n, ka, kb, None, "the operator panics (%s)" % ex)
-                        break
-                    except CxUnknown as ex:
-                        unknown = (n, ka, kb, str(ex))
-                        break
-                    n_cases += 1
-                    for i in range(n):
-                        for j in range(n):
-                            n_entries += 1
-                            want = model(A0[i][j], B0[i][j]) if binary else model(A0[i][j], arg)
-                            if got[i][j] != want and bad is None:
-                                bad = (n, ka, kb, (i, j), "entry is %r, the dense model gives %r" % (got[i][j], want))
-                    if bad:
-                        break
-                if bad or unknown:
-                    break
-            if bad or unknown:
-                break
+            c_, e_, b_, u_, st_ = results[(opname, n)]
+            n_cases += c_
+            n_entries += e_
+            total_steps += st_
+            bad = bad or b_
+            unknown = unknown or u_
         if bad:
             n_, ka, kb, ij, msg = bad
             rhs = (" with %s" % kname(kb)) if binary else (" with scalar %s" % ("0" if kb == "zero" else "s"))
@@ -156,8 +196,9 @@ def r_mat_dense(rep, f, nmax=3):
             rep.inconc("R-MAT-DENSE", key, "%s on %s (n = %d) not evaluated: %s" % (opname, kname(ka), n_, why))
         else:
             rep.ok("R-MAT-DENSE", key, "%d storage combination(s) up to n = %d, %d entries: result[(i, j)] equals the dense model identically in the stored numbers" % (n_cases, nmax, n_entries))
-    r_mat_misc(rep, f, cx, nmax)
-    rep.extra["cx_steps"] = cx.steps
+    cx = Ctx(f)
+    r_mat_misc(rep, f, cx, min(nmax, 5))
+    rep.extra["cx_steps"] = total_steps + cx.steps
 
 
 def r_mat_misc(rep, f, cx, nmax):
@@ -230,6 +271,47 @@ def r_mat_misc(rep, f, cx, nmax):
             rep.violation("R-MAT-DENSE", key, probs[0], f.bodies[ISI].get("sp"))
         elif probs is not None:
             rep.ok("R-MAT-DENSE", key, "%d instances: is_identity() <=> every entry read through Index equals delta_ij" % n_c)
+    # swap_rows: a row swap on Full storage; on Banded storage the entries of the two rows that are both inside the band
+    # change places and every other row is untouched (the documented "logical swap within the band")
+    key = "R-MAT-DENSE:swap_rows"
+    SWP = M + "swap_rows"
+    if SWP in f.bodies:
+        probs, n_c = [], 0
+        try:
+            for n in range(2, nmax + 1):
+                for k in kinds(n):
+                    if k == ("I",):
+                        continue
+                    for r1 in range(n):
+                        for r2 in range(n):
+                            if r1 == r2:
+                                continue
+                            m = cx.mk(k, n, "a")
+                            before = cx.dense(deepv(m), n)
+                            cx.call(SWP, [m, r1, r2])
+                            ri = repinv(m, n)
+                            if ri:
+                                probs.append("swap_rows(%d, %d) on %s: %s" % (r1, r2, kname(k), ri))
+                                continue
+                            after = cx.dense(m, n)
+                            n_c += 1
+                            inband = lambda i, j: k == ("F",) or (-k[2] <= i - j <= k[1])
+                            for j in range(n):
+                                for i in range(n):
+                                    if i not in (r1, r2):
+                                        want = before[i][j]
+                                    elif inband(r1, j) and inband(r2, j):
+                                        want = before[r2 if i == r1 else r1][j]
+                                    else:
+                                        continue      # one of the two places is outside the band: documented as lossy
+                                    if after[i][j] != want:
+                                        probs.append("swap_rows(%d, %d) on a %dx%d %s matrix: entry (%d, %d) is %r, expected %r" % (r1, r2, n, n, kname(k), i, j, after[i][j], want))
+        except (CxUnknown, CxPanic) as ex:
+            probs.append("swap_rows not evaluated or panics on a legal call: %s" % ex)
+        if probs:
+            rep.violation("R-MAT-DENSE", key, probs[0], f.bodies[SWP].get("sp"))
+        else:
+            rep.ok("R-MAT-DENSE", key, "%d row swaps: in-band pairs change places, all other rows are untouched" % n_c)
     # element writes: m[(i, j)] = v changes exactly that entry (in-band positions)
     key = "R-MAT-DENSE:index_mut"
     if IDXM in f.bodies:
